@@ -44,6 +44,8 @@ impl Build for Core {
             "f2" => Core::F2(s[0], s[1]),
             "g3" => Core::G3(s[0], s[1], s[2]),
             "g4" => Core::G4(s[0], s[1], s[2], s[3]),
+            "g5" => Core::G5(s[0], s[1], s[2], s[3], s[4]),
+            "g6" => Core::G6(s[0], s[1], s[2], s[3], s[4], s[5]),
             "c0" => Core::C0(),
             "c1" => Core::C1(),
             "w" => Core::W(aid()),
